@@ -28,9 +28,12 @@ type Outcome struct {
 	ErrCB       []int             `json:"err_cb,omitempty"`
 	Audit       []string          `json:"audit,omitempty"`
 	HeldReader  string            `json:"held_reader,omitempty"`
-	ErrSteps    []string          `json:"err_steps,omitempty"` // steps that returned a non-nil error
-	DebugErrors int               `json:"debug_errors"`
-	Excl        string            `json:"exclusivity,omitempty"`
+	// readers obtained before Close and kept by the caller (HoldReader): read
+	// again after later transactions used the recycled object
+	heldLate    []io.Reader
+	ErrSteps    []string `json:"err_steps,omitempty"` // steps that returned a non-nil error
+	DebugErrors int      `json:"debug_errors"`
+	Excl        string   `json:"exclusivity,omitempty"`
 }
 
 func ifacePtr(x any) unsafe.Pointer { return (*[2]unsafe.Pointer)(unsafe.Pointer(&x))[1] }
@@ -168,6 +171,14 @@ func runTx(h *wafHandle, s *TxScript) *Outcome {
 		out.Steps = append(out.Steps, st.name+" -> "+r)
 		if s.HoldReader && st.name == "ProcessRequestBody" {
 			held, _ = tx.RequestBodyReader()
+			if r2, err := tx.RequestBodyReader(); err == nil && r2 != nil {
+				out.heldLate = append(out.heldLate, r2)
+			}
+		}
+		if s.HoldReader && st.name == "ProcessResponseBody" {
+			if r2, err := tx.ResponseBodyReader(); err == nil && r2 != nil {
+				out.heldLate = append(out.heldLate, r2)
+			}
 		}
 	}
 	if out.Panic == "" {
@@ -177,6 +188,9 @@ func runTx(h *wafHandle, s *TxScript) *Outcome {
 	}
 	if h.Concurrent {
 		verifrt.LiveRemove(ifacePtr(tx))
+	}
+	if s.beforeClose != nil {
+		s.beforeClose()
 	}
 	if !s.NoClose {
 		if p := safely(func() {
@@ -193,6 +207,7 @@ func runTx(h *wafHandle, s *TxScript) *Outcome {
 	if held != nil {
 		b, err := io.ReadAll(held)
 		out.HeldReader = fmt.Sprintf("%q err=%v", b, err != nil)
+		out.heldLate = append(out.heldLate, held)
 	}
 	if !h.Concurrent {
 		for _, c := range h.ErrCB[cbBefore:] {
